@@ -306,6 +306,14 @@ impl AddressRange {
         })
     }
 
+    pub(crate) fn of_write_coils(self) -> Result<Self, InvalidRange> {
+        self.limited_count(crate::constants::limits::MAX_WRITE_COILS_COUNT)
+    }
+
+    pub(crate) fn of_write_registers(self) -> Result<Self, InvalidRange> {
+        self.limited_count(crate::constants::limits::MAX_WRITE_REGISTERS_COUNT)
+    }
+
     fn limited_count(self, limit: u16) -> Result<Self, InvalidRange> {
         if self.count > limit {
             return Err(InvalidRange::CountTooLargeForType(self.count, limit));
